@@ -8,6 +8,7 @@
   paths, every schedule of any length.
 -/
 import PV.Model.Blocking
+import PV.Generated.C13
 namespace PV.Props.C13
 open PV.Blocking
 
@@ -263,6 +264,18 @@ theorem notify_one_strands_second_sender_witness :
     let m := mrun sendRow .remote false (minit 2) [.caller 0, .caller 1, .loss, .loss, .loss, .caller 0, .caller 1, .caller 1]
     m.lossPc = 3 ∧ m.cs[0]? = some (.done, true) ∧ m.cs[1]? = some (.waiting, false) := by
   decide
+
+/-! ### no lock is left held by a call that has ended
+
+The rows above treat the locks a call takes on its way (Channel.lock, Transport.lock, clear_to_send_lock, the
+BufferedPipe lock, the SFTP client lock) as free once their holder has returned or raised.  That is a fact about
+the code: every explicit `acquire()` in the files behind the blocking APIs is released on every path, exceptions
+included (table regenerated from the AST on every run by pv/lib_lockdisc.py). -/
+
+theorem locks_released_on_every_path : ∀ s ∈ PV.Generated.C13.lockSites, s.safe = true := by decide
+
+theorem lock_table_covers_the_send_gate :
+    (PV.Generated.C13.lockSites.filter fun s => s.lock == "self.clear_to_send_lock").length ≥ 4 := by decide
 
 /-! ### ProxyCommand.recv at end of file -/
 
